@@ -58,3 +58,29 @@ class MemoKey:
                 and forall_range(len(gate_args), lambda k: entry_ok(gate_args[k], context, result[2][k])))
 
     raises_only = ()
+
+
+from jaqalpaq.core.circuitbuilder import Builder
+
+
+@contract("core.circuitbuilder:Builder.add_to_context", props=["C14", "C07"])
+class AddToContext:
+    """C14 (no identifier is defined twice): binding a name that the context already has is refused with JaqalError,
+    exactly then; otherwise the context gains exactly this binding"""
+
+    def requires(self, context, name, obj):
+        return isinstance(context, dict) and is_str(name)
+
+    modifies = ("context",)
+
+    def raises_JaqalError(self, context, name, obj):
+        return has_key(context, name)
+
+    raises_only = ("JaqalError",)
+
+    def ensures(self, context, name, obj, result):
+        return has_key(context, name) and same(dict_lookup(context, name), obj)
+
+    def ensures_others_kept(self, context, name, obj, result):
+        return (forall_keys(context, lambda k: k == name or (old(has_key(context, k)) and same(dict_lookup(context, k), old(dict_lookup(context, k)))))
+                and len(context) == old(len(context)) + 1)
